@@ -28,6 +28,7 @@ def describe(ck):
     ck.rule("R05i", "a local pointer published through an out-parameter is not released afterwards on any path without reassignment")
     ck.rule("R05f", "the alphabets kalign_run selects (constructors evaluated at analysis time) have exactly id classes, all codes < the table sizes of the phase that uses them, and a code for the ambiguity letter")
     ck.rule("R05l", "heap buffers allocated in a function hold every index / copy length used on them in that function (affine comparison; decided only when the symbolic parts cancel)")
+    ck.rule("R05m", "bpm_block clamps the pattern length to what its fixed-size block tables hold (cap <= blocks x 64), before any use, and Peq has SIGMA residue rows")
     ck.rule("R05j", "loop-carried appends X->buf[X->count]; X->count++ test count against capacity before the next element access")
     ck.rule("R05k", "a local pointer that aliases storage owned by a struct field is not passed to a releaser while the owner still holds it")
     ck.not_decided += ["termination of all loops", "index safety inside the DP / bit-parallel kernels",
@@ -344,6 +345,7 @@ def run(ck, progs):
         n = ck.attempt(r05i, ck, prog)
         ck.floor("R05i", n, 20, "out-parameter publications")
         ck.attempt(r05f, ck, prog)
+        ck.attempt(r05m, ck, prog)
         n = ck.attempt(r05l, ck, prog)
         ck.floor("R05l", n, 120, "decided heap accesses")
         n = ck.attempt(r05j, ck, prog)
@@ -1238,3 +1240,68 @@ def _phase_check(prog, cg, T, f, reader_fns):
                 return (root, g)
             st.extend(cg.edges.get(g, ()))
     return None
+
+
+# --------------------------------------------------------------------------- R05m
+def r05m(ck, prog):
+    """bpm_block: the pattern-length cap fits the block tables: cap <= blocks x word bits for every
+    fixed-size local table of the kernel, and the residue dimension of Peq equals SIGMA"""
+    F = prog.fn("bpm_block")
+    sigma = prog.macro_int("SIGMA")
+    # the clamp  if(m > K) m = K
+    caps = []
+    for ifs in F.body.find("IfStmt"):
+        c = ifs.child("cond").strip()
+        if c.k == "BinaryOperator" and c.d["op"] in (">", ">=") and c.kids[1].cv is not None and c.kids[0].strip(casts=True).k == "DeclRefExpr" \
+                and c.kids[0].strip(casts=True).d.get("dk") == "Parm":
+            for a in ifs.child("then").find("BinaryOperator"):
+                if a.d["op"] == "=" and a.kids[0].strip().text() == c.kids[0].strip(casts=True).text() and a.kids[1].cv is not None:
+                    caps.append((c.kids[0].strip(casts=True).text(), a.kids[1].cv, c.kids[1].cv + (0 if c.d["op"] == ">" else -1), ifs))
+    if len(caps) != 1:
+        raise AnalysisBroken("R05m slot: pattern-length clamp of bpm_block not found (%d candidates)" % len(caps))
+    pname, cap, thresh, node = caps[0]
+    # the clamp must come before any use of the pattern length
+    word_bits = None
+    for d in F.body.find("DeclStmt"):
+        pass
+    for a in F.body.find("BinaryOperator"):
+        if a.d["op"] == "=" and a.kids[0].strip().text() == "w_bytes" and a.kids[1].cv:
+            word_bits = a.kids[1].cv * 8
+    if word_bits is None:
+        raise AnalysisBroken("R05m slot: word size of bpm_block not found")
+    arrays = []
+    for s in F.body.find("DeclStmt"):
+        for dd in s.d["decls"]:
+            m = re.match(r"^(\w[\w ]*?)((?:\[\d+\])+)$", dd.get("ty", ""))
+            if m:
+                dims = [int(x) for x in re.findall(r"\[(\d+)\]", m.group(2))]
+                arrays.append((dd["name"], dims, s))
+    where = site(prog, node, "cap")
+    ck.inst("R05m", where, "bpm_block clamps the pattern to %d symbols (> %d); %d-bit words; local tables %s" % (
+        cap, thresh, word_bits, [(n, d) for n, d, _ in arrays]), prog.config)
+    if cap > thresh + 0 and cap != thresh:
+        ck.violation("R05m", "R05m/bpm_block/clamp", where, "patterns longer than %d are clamped to %d" % (thresh, cap), prog.config)
+    nblocks = -(-cap // word_bits)
+    checked = 0
+    for name, dims, s in arrays:
+        blocks = dims[-1]
+        checked += 1
+        if blocks < nblocks:
+            ck.violation("R05m", "R05m/bpm_block/%s" % name, site(prog, s, name),
+                         "table %s has %d blocks of %d bits = %d symbols but patterns of up to %d symbols are processed" % (
+                             name, blocks, word_bits, blocks * word_bits, cap), prog.config)
+        if len(dims) == 2 and dims[0] != sigma:
+            ck.violation("R05m", "R05m/bpm_block/%s-sigma" % name, site(prog, s, name),
+                         "table %s has %d residue rows but SIGMA is %d" % (name, dims[0], sigma), prog.config)
+    if checked < 3:
+        raise AnalysisBroken("R05m slot: fixed-size tables of bpm_block not found")
+    # the clamp precedes every other use of the length parameter
+    cfg = F.cfg
+    cpos = cfg.position(node.child("cond"))
+    for r in F.body.refs(name=pname):
+        if r.d.get("dk") == "Parm" and not r.within(node):
+            rp = cfg.position(r)
+            if rp is not None and cfg.reaches(None, rp, avoid=[cpos]):
+                ck.violation("R05m", "R05m/bpm_block/clamp-late", site(prog, r),
+                             "the pattern length is used before it is clamped", prog.config)
+                break
